@@ -48,13 +48,22 @@ def run(ctx, Tokenizer, TokenizerError, check_string, nontrivial, n, seed):
                     model._formulas.add_table(t._table_id)
                     k = 0
                     for ts, tt, tgt in tabs:
-                        for kind, idxs in (("col", sorted(tgt["col_labels"])), ("row", sorted(tgt["row_labels"]))):
-                            for i in idxs[: 3]:
-                                if k >= 25:
+                        for kind, idxs in (("col", sorted(tgt["col_labels"])), ("row", sorted(tgt["row_labels"])),
+                                           ("cols", sorted(tgt["col_labels"])), ("rows", sorted(tgt["row_labels"]))):
+                            for n_, i in enumerate(idxs[: 3]):
+                                if k >= 30:
                                     break
-                                host = [1 + k // 5, 1 + k % 5]
+                                host = [k // 6, k % 6]
                                 ref = {"to": [ts, tt], "kind": kind, "host_table": [hs, ht], "host": host}
-                                ref.update({"col": int(i), "col_abs": k % 2 == 0} if kind == "col" else {"row": int(i), "row_abs": k % 2 == 0})
+                                if kind in ("col", "row"):
+                                    ref.update({"col": int(i), "col_abs": k % 2 == 0} if kind == "col" else {"row": int(i), "row_abs": k % 2 == 0})
+                                else:
+                                    # a span between two labelled lines: printed as label:label (either end may need quotes)
+                                    j = int(idxs[min(len(idxs) - 1, n_ + 1 + k % 2)])
+                                    a_, b_ = sorted((int(i), j))
+                                    ab = [k % 2 == 0, k % 3 == 0]
+                                    ref.update({"r0": a_, "r1": b_, "c0": 0, "c1": 0, "abs": ab + [False, False]} if kind == "rows"
+                                               else {"c0": a_, "c1": b_, "r0": 0, "r1": 0, "abs": [False, False] + ab})
                                 node = c09.node_for(ref, host, uuid_of, (hs, ht))
                                 fid = model._formulas.lookup_key(t._table_id, TSCE.FormulaArchive(AST_node_array={"AST_node": [node]}))
                                 t.cell(*host)._formula_id = fid
